@@ -22,7 +22,12 @@ pub struct Case {
   pub index_len: Option<usize>,
   /// operands inline as typed literals (only when they are exactly writable) instead of variables
   pub inline: bool,
+  /// which operands are variables (bit 0 start, bit 1 step, bit 2 end); 255 = all follow `inline`. Mixed literal/variable operands take
+  /// different arms of the range dispatch tables than all-literal or all-variable ones
+  #[serde(default = "all_follow")]
+  pub vars: u8,
 }
+fn all_follow() -> u8 { 255 }
 
 const MAXLEN: usize = 2000;
 
@@ -101,13 +106,13 @@ fn is_dyadic_exact(a: &Sc, s: &Option<Sc>, n: usize) -> bool {
 impl Prop for C15 {
   type Case = Case;
   const ID: &'static str = "C15";
-  fn budget(t: Tier) -> u32 { t.pick(12_000, 250_000) }
+  fn budget(t: Tier) -> u32 { t.pick(40_000, 400_000) }
   fn strategy(_t: Tier, _k: &Known) -> BoxedStrategy<Case> {
     let kinds = range_kinds();
-    (pick(kinds), any::<bool>(), any::<bool>(), proptest::option::weighted(0.15, 3usize..9))
-      .prop_flat_map(|(k, inclusive, inline, index_len)| {
+    (pick(kinds), any::<bool>(), any::<bool>(), proptest::option::weighted(0.15, 3usize..9), prop_oneof![1 => Just(255u8), 1 => 0u8..8])
+      .prop_flat_map(|(k, inclusive, inline, index_len, vars)| {
         let core = if k.is_int() { int_case(k) } else if k == K::R64 { rat_case() } else { float_case(k) };
-        core.prop_map(move |(a, s, b)| Case { a, s, b, inclusive, index_len: if k == K::F64 { index_len } else { None }, inline })
+        core.prop_map(move |(a, s, b)| Case { a, s, b, inclusive, index_len: if k == K::F64 { index_len } else { None }, inline, vars })
       }).boxed()
   }
   fn rule() -> &'static str {
@@ -143,14 +148,13 @@ fn writable_inline(s: &Sc) -> bool {
 fn render(c: &Case) -> Vec<String> {
   let inline = c.inline && writable_inline(&c.a) && writable_inline(&c.b) && c.s.as_ref().map(writable_inline).unwrap_or(true);
   let mut st = vec![];
-  let (a, s, b) = if inline {
-    (lit(&c.a), c.s.as_ref().map(lit), lit(&c.b))
-  } else {
-    st.extend(define_scalar("a", &c.a, false));
-    if let Some(s) = &c.s { st.extend(define_scalar("s", s, false)); }
-    st.extend(define_scalar("b", &c.b, false));
-    ("a".to_string(), c.s.as_ref().map(|_| "s".to_string()), "b".to_string())
-  };
+  // per-operand placement: a variable when its bit is set (or when it cannot be written exactly as a literal)
+  let as_var = |bit: u8, x: &Sc| if c.vars == 255 { !inline } else { c.vars & (1 << bit) != 0 || !writable_inline(x) };
+  let (va, vs, vb) = (as_var(0, &c.a), c.s.as_ref().map(|x| as_var(1, x)).unwrap_or(false), as_var(2, &c.b));
+  if va { st.extend(define_scalar("a", &c.a, false)); }
+  if let (Some(s), true) = (&c.s, vs) { st.extend(define_scalar("s", s, false)); }
+  if vb { st.extend(define_scalar("b", &c.b, false)); }
+  let (a, s, b) = (if va { "a".to_string() } else { lit(&c.a) }, c.s.as_ref().map(|x| if vs { "s".to_string() } else { lit(x) }), if vb { "b".to_string() } else { lit(&c.b) });
   let dots = if c.inclusive { "..=" } else { ".." };
   let expr = match s { Some(s) => format!("{}..{}{}{}", a, s, dots, b), None => format!("{}{}{}", a, dots, b) };
   if let Some(n) = c.index_len {
@@ -254,13 +258,15 @@ fn check(c: &Case) -> Verdict {
       return v;
     }
     if !in_range {
-      if observed.is_some() { v.fail(format!("C15|index-out-of-range-gave-value|{}", form), format!("range index leaves 1..={} but evaluated to {}", n, out.show())); }
+      if observed.is_some() { let cause = root_cause(c, k, &terms, &es, &out); v.fail(if cause == "other" { format!("C15|index-out-of-range-gave-value|{}", form) } else { format!("C15|{}|index|{}", cause, form) }, format!("range index leaves 1..={} but evaluated to {}", n, out.show())); }
       return v;
     }
     let want: Vec<RVal> = idx.iter().map(|i| RVal::S(f64b((i * 11) as f64))).collect();
+    // a range used as an index fails for the same reasons as the range alone: key it by the same root cause
+    let cause = root_cause(c, k, &terms, &es, &out);
     match observed {
-      None => v.fail(format!("C15|index-rejected|{}|{}", form, out.class()), format!("in-range index range rejected: {}", out.show())),
-      Some(o) => if o != want { v.fail(format!("C15|index-wrong|{}", form), format!("x[{:?}] gave {} expected {:?}", idx, out.show(), want.iter().map(|x| x.show()).collect::<Vec<_>>())); }
+      None => v.fail(if cause == "other" { format!("C15|index-rejected|{}|{}", form, out.class()) } else { format!("C15|{}|index|{}", cause, form) }, format!("in-range index range rejected: {}", out.show())),
+      Some(o) => if o != want { v.fail(if cause == "other" { format!("C15|index-wrong|{}", form) } else { format!("C15|{}|index|{}", cause, form) }, format!("x[{:?}] gave {} expected {:?}", idx, out.show(), want.iter().map(|x| x.show()).collect::<Vec<_>>())); }
     }
     return v;
   }
